@@ -1137,32 +1137,48 @@ Example ex_diamond :
   o_reqs (walk 5 (WORLD d [1; 2; 3; 4]) VAll None None 4 []) = [4; 2; 1; 3].
 Proof. split; reflexivity. Qed.
 
+(* Syncer.Sync with a selector from the exported builders, over a chain *)
+Theorem sync_sel_spec k extra ch pub head stop lim st :
+  chain_wf k extra ch = true -> In head ch -> is_stop stop head = false ->
+  let seg := segment ch head stop lim in
+  avail pub (s_store st) seg = true ->
+  sync_sel (chain_world k extra ch pub) (kind_view k) stop lim head st =
+  CO RNil seg (missing (s_store st) seg) None
+     (ST (s_latest st) (rev (missing (s_store st) seg) ++ s_store st)).
+Proof.
+  intros Hwf Hin Hs seg Hav. unfold sync_sel, handle_plain.
+  rewrite (walk_chain_spec_proved k extra ch pub head stop lim (s_store st) Hwf Hin Hs Hav). reflexivity.
+Qed.
+
 (* ================================================================ *)
 (* 6. Handler removal                                                *)
 
 (* RemoveHandler / the idle cleaner between calls change nothing observable: the other
    calls have the same outcomes and the final state is the same as without those steps *)
-Theorem removal_steps_are_invisible w cfg : forall l st,
+Theorem removal_steps_are_invisible cfg : forall l w st,
   filter (fun p => negb (is_removal (fst p))) (fst (run_seq w cfg l st)) =
     fst (run_seq w cfg (filter (fun c => negb (is_removal c)) l) st) /\
   snd (run_seq w cfg l st) = snd (run_seq w cfg (filter (fun c => negb (is_removal c)) l) st) /\
   (forall c o, In (c, o) (fst (run_seq w cfg l st)) -> is_removal c = true ->
      r_hooks o = [] /\ r_reqs o = [] /\ r_event o = None).
 Proof.
-  induction l as [|c r IH]; intro st.
+  induction l as [|c r IH]; intros w st.
   - cbn. split; [reflexivity|]. split; [reflexivity|]. intros c o [].
-  - cbn [run_seq filter].
+  - cbn [run_seq filter]. cbv zeta.
     destruct (is_removal c) eqn:R.
-    + assert (Hst : r_state (run_call w cfg c st) = st) by (destruct c; try discriminate; reflexivity).
+    + assert (Hw : step_world w c = w) by (destruct c; try discriminate; reflexivity).
+      rewrite Hw.
+      assert (Hst : r_state (run_call w cfg c st) = st) by (destruct c; try discriminate; reflexivity).
       assert (Hq : r_hooks (run_call w cfg c st) = [] /\ r_reqs (run_call w cfg c st) = [] /\ r_event (run_call w cfg c st) = None)
         by (destruct c; try discriminate; cbn; auto).
-      rewrite Hst. destruct (IH st) as (A & B & C).
+      rewrite Hst. destruct (IH w st) as (A & B & C).
       destruct (run_seq w cfg r st) as [outs st'] eqn:E. cbn [fst snd negb filter] in *. rewrite R. cbn [negb].
       split; [exact A|]. split; [exact B|].
       intros c1 o1 [X|X] Hc; [inversion X; subst; exact Hq|apply (C c1 o1 X Hc)].
-    + cbn [negb run_seq]. destruct (IH (r_state (run_call w cfg c st))) as (A & B & C).
-      destruct (run_seq w cfg r (r_state (run_call w cfg c st))) as [outs st'] eqn:E.
-      destruct (run_seq w cfg (filter (fun c0 => negb (is_removal c0)) r) (r_state (run_call w cfg c st))) as [outs2 st2] eqn:E2.
+    + cbn [negb run_seq]. cbv zeta. set (w' := step_world w c).
+      destruct (IH w' (r_state (run_call w' cfg c st))) as (A & B & C).
+      destruct (run_seq w' cfg r (r_state (run_call w' cfg c st))) as [outs st'] eqn:E.
+      destruct (run_seq w' cfg (filter (fun c0 => negb (is_removal c0)) r) (r_state (run_call w' cfg c st))) as [outs2 st2] eqn:E2.
       cbn [fst snd filter] in *. rewrite R. cbn [negb].
       split; [f_equal; exact A|]. split; [exact B|].
       intros c1 o1 [X|X] Hc; [inversion X; subst; congruence|apply (C c1 o1 X Hc)].
